@@ -113,11 +113,23 @@ func (b byteReaderFlavour) ReadByte() (byte, error) {
 	return c, nil
 }
 
+// a reader whose Len() reports only what is buffered right now (a receive queue), not what will arrive
+type lenReaderFlavour struct{ b *baseReader }
+
+func (p lenReaderFlavour) Read(q []byte) (int, error) { return p.b.Read(q) }
+func (p lenReaderFlavour) Len() int {
+	rem := len(p.b.data) - p.b.pos
+	if rem > 3 {
+		return 3
+	}
+	return rem
+}
+
 type plainReaderFlavour struct{ b *baseReader }
 
 func (p plainReaderFlavour) Read(q []byte) (int, error) { return p.b.Read(q) }
 
-var readerFlavours = []string{"io.Reader", "io.ByteReader", "1-byte reads", "random chunks", "data+EOF"}
+var readerFlavours = []string{"io.Reader", "io.ByteReader", "1-byte reads", "random chunks", "data+EOF", "chunks with Len() = buffered now"}
 
 func mkReader(flavour int, data []byte, fault bool, r *rand.Rand) (io.Reader, *baseReader) {
 	b := &baseReader{data: data, fault: fault, r: r}
@@ -132,6 +144,9 @@ func mkReader(flavour int, data []byte, fault bool, r *rand.Rand) (io.Reader, *b
 		b.mode = 2
 	case 4:
 		b.mode = 3
+	case 5:
+		b.mode = 2
+		return lenReaderFlavour{b}, b
 	}
 	return plainReaderFlavour{b}, b
 }
@@ -274,6 +289,17 @@ func famCodec(dir string, seed int64, tier string) {
 		seqs = append(seqs, []sb.Token{t})
 	}
 	seqs = append(seqs, nil) // the empty sequence
+	// payloads of EQUAL long length with fixed-width tokens between them (anything an encoder might remember from
+	// one length prefix to the next lives in the scratch buffer the fixed-width tokens are written through)
+	for _, n := range []int{127, 128, 200, 300, 16384, 70000} {
+		mkS := func(c byte) sb.Token { return sb.Token{Kind: sb.KindString, Value: string(bytes.Repeat([]byte{c}, n))} }
+		mkB := func(c byte) sb.Token { return sb.Token{Kind: sb.KindBytes, Value: bytes.Repeat([]byte{c}, n)} }
+		seqs = append(seqs,
+			[]sb.Token{mkS('a'), tokI(7), mkS('b')},
+			[]sb.Token{mkB('a'), {Kind: sb.KindFloat64, Value: 1.5}, mkB('b'), {Kind: sb.KindUint16, Value: uint16(515)}, mkB('c')},
+			[]sb.Token{mkS('a'), {Kind: sb.KindUint32, Value: uint32(0xdeadbeef)}, mkB('b'), {Kind: sb.KindInt64, Value: int64(-2)}, mkS('c'), mkS('d')},
+			[]sb.Token{{Kind: sb.KindTypeName, Value: string(bytes.Repeat([]byte{'t'}, n))}, {Kind: sb.KindInt16, Value: int16(-3)}, {Kind: sb.KindLiteral, Value: string(bytes.Repeat([]byte{'9'}, n))}, {Kind: sb.KindPointer, Value: uintptr(77)}, {Kind: sb.KindRef, Value: bytes.Repeat([]byte{'r'}, n)}})
+	}
 	nrand := 300
 	if thorough {
 		nrand = 6000
